@@ -196,6 +196,16 @@ def classify_use(ctx, fi: FuncInfo, e: ast.AST) -> tuple[str, str]:
         comp = prog.parent(p)
         if isinstance(comp, (ast.SetComp, ast.DictComp)):
             return "insensitive", "set/dict comprehension over a set (membership only; dict order not read here)" if isinstance(comp, ast.SetComp) else ("sensitive", "dict comprehension over a set fixes an insertion order")[0:2] if False else ("insensitive", "set comprehension")
+        if isinstance(comp, ast.ListComp):
+            # the list is bound to a local that is only consumed in order-insensitive ways (sorted(), set(), len(), membership)
+            pa = prog.parent(comp)
+            if isinstance(pa, (ast.Assign, ast.AnnAssign)) and pa.value is comp and isinstance((pa.targets[0] if isinstance(pa, ast.Assign) else pa.target), ast.Name) \
+                    and (isinstance(pa, ast.AnnAssign) or len(pa.targets) == 1):
+                nm = (pa.targets[0] if isinstance(pa, ast.Assign) else pa.target).id
+                stores = [x for x in ast.walk(fi.node) if isinstance(x, ast.Name) and x.id == nm and isinstance(x.ctx, ast.Store)]
+                loads = [x for x in ast.walk(fi.node) if isinstance(x, ast.Name) and x.id == nm and isinstance(x.ctx, ast.Load)]
+                if len(stores) == 1 and loads and all(classify_use(ctx, fi, u)[0] == "insensitive" for u in loads):
+                    return "insensitive", f"list comprehension held in the local {nm}, which is only consumed order-insensitively ({classify_use(ctx, fi, loads[0])[1]})"
         if isinstance(comp, (ast.ListComp, ast.GeneratorExp)):
             return classify_use(ctx, fi, comp) if isinstance(comp, ast.GeneratorExp) else ("sensitive", "list comprehension over a set: list order follows the hash seed")
         return "none", ""
